@@ -147,10 +147,18 @@ fn random_pat(src: &mut Src) -> Pat {
     let mut used = BTreeSet::new();
     let mut mk = |src: &mut Src, min: i128| -> Option<i128> {
         if src.chance(45) {
-            let mut v = match src.weighted(&[4, 2, 1]) {
+            let mut v = match src.weighted(&[8, 4, 2, 1]) {
                 0 => src.range(min.max(-3), min.max(-3) + 40),
                 1 => src.range(min.max(-70000), min.max(-70000) + 140000),
-                _ => src.range(min.max(i32::MIN as i128), i32::MAX as i128 - 50),
+                2 => src.range(min.max(i32::MIN as i128), i32::MAX as i128 - 50),
+                // numbers around the 32 / 64 bit limits and far beyond (X.680 puts no limit
+                // on an enumeral's number; the compiler carries them as 128-bit integers)
+                _ => {
+                    let k = [31u32, 32, 63, 64, 100][src.pick(5)];
+                    let b = 1i128 << k;
+                    let d = src.pick(3) as i128 - 1;
+                    if src.chance(50) { b + d } else { -b + d }
+                }
             };
             while used.contains(&v) {
                 v += 1;
@@ -353,9 +361,17 @@ fn run_batch(ctx: &mut Ctx, pats: &[Pat], nested: bool, tagc: &str) {
     }
 }
 
+fn pat_from(v: &Value) -> Option<Pat> {
+    if let Some(s) = v["pattern_json"].as_str() {
+        return serde_json::from_str(s).ok();
+    }
+    serde_json::from_value(v["pattern"].clone()).ok()
+}
+
 fn pat_payload(p: &Pat, nested: bool, observed: &str) -> Value {
     let (text, _) = module_text(std::slice::from_ref(p), nested);
-    json!({"kind": "c14", "pattern": p, "nested": nested, "sources": [{"name": "enum.asn", "text": text}], "observed": observed})
+    // (numbers beyond 64 bits do not fit a serde_json::Value: the pattern travels as text)
+    json!({"kind": "c14", "pattern_json": serde_json::to_string(p).unwrap_or_default(), "nested": nested, "sources": [{"name": "enum.asn", "text": text}], "observed": observed})
 }
 
 pub fn run(tier: Tier, seed: u64, replay: Option<String>) -> i32 {
@@ -392,12 +408,12 @@ pub fn run(tier: Tier, seed: u64, replay: Option<String>) -> i32 {
 
     if let Some(path) = replay {
         let v: Value = serde_json::from_str(&std::fs::read_to_string(&path).expect("replay")).expect("json");
-        let p: Pat = serde_json::from_value(v["pattern"].clone()).expect("pattern");
+        let p: Pat = pat_from(&v).expect("pattern");
         run_batch(&mut ctx, &[p], v["nested"].as_bool().unwrap_or(false), "replay");
         return ctx.finish();
     }
     for (_p, v) in crate::ev::replay_files("C14") {
-        if let Ok(p) = serde_json::from_value::<Pat>(v["pattern"].clone()) {
+        if let Some(p) = pat_from(&v) {
             run_batch(&mut ctx, &[p], v["nested"].as_bool().unwrap_or(false), "replay");
         }
     }
